@@ -28,6 +28,27 @@ type evalModel struct {
 	DepDataEv ssa.Value              // the dependency-stamp map as seen in Evaluate (DepData, or a result of the helper call)
 	Helpers   []*ssa.Function        // in-package functions statically called from Evaluate (depth <= 2), excluding saveTargetInfo
 	ViaSaves  []viaSave              // record writes performed by a helper called from Evaluate
+	BodyFn    *ssa.Function          // the function that invokes Target.evaluate(): Evaluate itself, or a helper only Evaluate calls
+	BodySite  *ssa.Call              // in Evaluate: the call of BodyFn (nil when BodyFn is Evaluate)
+	p         *core.Prog
+}
+
+// dom is dominance across Evaluate and its body helper.
+func (m *evalModel) dom(a, b ssa.Instruction) bool { return m.p.DominatesX(a, b) }
+
+// fns lists Evaluate and, if the body lives in a helper, that helper.
+func (m *evalModel) fns() []*ssa.Function {
+	if m.BodyFn != nil && m.BodyFn != m.Fn {
+		return []*ssa.Function{m.Fn, m.BodyFn}
+	}
+	return []*ssa.Function{m.Fn}
+}
+
+// instrs visits the instructions of Evaluate and of its body helper.
+func (m *evalModel) instrs(f func(ssa.Instruction)) {
+	for _, fn := range m.fns() {
+		core.Instrs(fn, f)
+	}
 }
 
 // viaSave: Evaluate calls a helper (Site) that writes the record (Save, inside the helper).
@@ -90,7 +111,7 @@ func buildEvalModel(p *core.Prog, r *core.Result, rule string) *evalModel {
 	if fn == nil || save == nil {
 		return nil
 	}
-	m := &evalModel{Fn: fn, Save: save, Events: map[string][]*ssa.Call{}}
+	m := &evalModel{Fn: fn, Save: save, Events: map[string][]*ssa.Call{}, p: p, BodyFn: fn}
 	for _, c := range core.Calls(fn) {
 		call, ok := c.(*ssa.Call)
 		if !ok {
@@ -150,10 +171,44 @@ func buildEvalModel(p *core.Prog, r *core.Result, rule string) *evalModel {
 			}
 		}
 	}
+	// the body (Target.evaluate, the record writes and the terminal events) may live in a helper that only Evaluate calls
+	if m.Evaluate == nil {
+		for _, c := range core.Calls(fn) {
+			site, ok := c.(*ssa.Call)
+			h := core.Callee(c)
+			if !ok || h == nil || h == save || h.Blocks == nil || h.Pkg != fn.Pkg {
+				continue
+			}
+			var ev *ssa.Call
+			for _, hc := range core.Calls(h) {
+				if call, ok := hc.(*ssa.Call); ok && isInvoke(hc, "Target", "evaluate") {
+					ev = call
+				}
+			}
+			if ev == nil || len(p.StaticCallers(h)) != 1 || len(p.FuncValueUses(h)) > 0 {
+				continue
+			}
+			m.Evaluate, m.BodyFn, m.BodySite = ev, h, site
+			p.SetContext(h, site)
+			for _, hc := range core.Calls(h) {
+				call, ok := hc.(*ssa.Call)
+				if !ok {
+					continue
+				}
+				if core.Callee(hc) == save {
+					m.Saves = append(m.Saves, call)
+				} else if hc.Common().IsInvoke() {
+					if n, ok := hc.Common().Value.Type().(*types.Named); ok && n.Obj().Name() == "Events" {
+						m.Events[hc.Common().Method.Name()] = append(m.Events[hc.Common().Method.Name()], call)
+					}
+				}
+			}
+		}
+	}
 	for _, c := range core.Calls(fn) {
 		site, ok := c.(*ssa.Call)
 		cal := core.Callee(c)
-		if !ok || cal == nil || cal == save || cal.Blocks == nil || cal.Pkg != fn.Pkg {
+		if !ok || cal == nil || cal == save || cal.Blocks == nil || cal.Pkg != fn.Pkg || cal == m.BodyFn {
 			continue
 		}
 		for _, c2 := range core.CallsTo(cal, save) {
